@@ -22,6 +22,8 @@ LEVEL_TEXT = ('Decides from the source, for every model class at once: each clas
               'source is exported by tatsu.peg. Equality of the reloaded parser on concrete inputs is not decided.')
 TECHNIQUE += '; registry-overwrite clause; interpretation of the Config pickle state round trip on all-falsy settings; read-back (ast.literal_eval) of the folded repr-as-source form for every container shape'
 LEVEL_TEXT += ' Added clauses: falsy settings survive __getstate__/__setstate__; one-element tuples, nested containers and strings print as literals that evaluate to themselves; silent overwrite of a registry entry by a same-named class is recorded as a known finding.'
+TECHNIQUE += "; generic encoder/decoder interpreted on stand-in structures (JSON-dumpable output, '__class__' tag, private attributes left out, fallback to a string; decoding of members before reconstruction, unknown tags, plain mappings, tuples)"
+LEVEL_TEXT += ' Added clause: see technique (C14.R8).'
 LEVEL_NOTE = 'Trusted: dataclass semantics (init=False fields are not constructor parameters); BaseNode.__repr__ omits None values.'
 EXPLANATION = ('Static analysis of /repo sources, TatSu not imported. Field tables are computed from the class table and the '
                'dataclass field declarations through the static MRO.')
